@@ -92,13 +92,64 @@ def shrink_tape(plan: dict, test) -> dict:
     return plan
 
 
+TERM_KINDS = ("iri", "bnode", "lit", "triple", "default")
+
+
+def _is_term(x) -> bool:
+    return isinstance(x, list) and x and x[0] in TERM_KINDS
+
+
+def _simpler(term):
+    k = term[0]
+    if k == "iri":
+        cands = [["iri", "http://e/a"], ["iri", "http://e/b"], ["iri", "a"]]
+    elif k == "bnode":
+        cands = [["bnode", "b"]]
+    elif k == "lit":
+        cands = [["lit", "x", None, None], ["lit", term[1], None, None], ["lit", "x", term[2], term[3]]]
+    elif k == "triple":
+        cands = [term[1], term[3], ["iri", "http://e/a"],
+                 ["triple", ["iri", "http://e/a"], ["iri", "http://e/p"], ["iri", "http://e/b"]]]
+    else:
+        cands = []
+    return [c for c in cands if c != term]
+
+
+def simplify_terms(plan: dict, path: str, test) -> dict:
+    """Replace terms of statement operations by simpler ones while the violation persists."""
+    try:
+        items = _get(plan, path)
+    except (KeyError, TypeError):
+        return plan
+    if not isinstance(items, list):
+        return plan
+    for i in range(len(items)):
+        op = _get(plan, path)[i]
+        if not isinstance(op, list):
+            continue
+        for j in range(len(op)):
+            if not _is_term(op[j]):
+                continue
+            for cand in _simpler(op[j]):
+                new_items = copy.deepcopy(_get(plan, path))
+                new_items[i][j] = cand
+                p2 = _set(plan, path, new_items)
+                if test(p2):
+                    plan = p2
+                    break
+    return plan
+
+
 def shrink(plan: dict, test, lists, simplify=None) -> dict:
     plan = copy.deepcopy(plan)
-    for _ in range(2):
+    for rnd in range(2):
         before = repr(plan)
         for path in lists:
             plan = ddmin_list(plan, path, test)
         plan = shrink_tape(plan, test)
+        if rnd == 0:
+            for path in lists:
+                plan = simplify_terms(plan, path, test)
         if simplify is not None:
             progress = True
             while progress:
